@@ -1,1 +1,31 @@
-/-! C04 — property theorems (placeholder until the model exists). -/
+import EupsModel.Model.Setup
+/-! C04 — setup changes only what it was asked to (keep, just, max-depth, bystanders).
+Model: `EupsModel/Model/Setup.lean`. -/
+namespace EupsModel.C04
+open EupsModel EupsModel.Setup
+
+/-! ## D21: `--keep` does not protect the dependencies of the requested product's previously set-up version -/
+
+def nA : Name := [97]
+def nC : Name := [99]
+def v1 : Ver := [49]
+def v3 : Ver := [51]
+
+/-- `a 1 → c`, `a 3` has no dependencies -/
+def dbKeep : Db :=
+  { decls := [⟨nA, v1, [1], [(.always, .dep nC false false none none)]⟩, ⟨nA, v3, [2], []⟩, ⟨nC, v1, [3], []⟩],
+    tags := [(tagCurrent, nA, v1), (tagCurrent, nC, v1)] }
+
+def envOf : Res → Option Env
+  | .ok s => some s.env
+  | _ => none
+
+/-- after `setup a` (→ `a 1`, `c 1`), `setup --keep a 3` ends with `c` not set up -/
+theorem C04_keep_drop_witness :
+    ∃ e1 e2, envOf (runSetup dbKeep 10 ⟨nA, none, false, none, false, []⟩ Env.empty) = some e1 ∧
+      envOf (runSetup dbKeep 10 ⟨nA, some (.explicit v3), true, none, false, []⟩ e1) = some e2 ∧
+      e1.rec? nC = some v1 ∧ e2.rec? nC = none := by
+  refine ⟨⟨[(nC, v1), (nA, v1)], [(nC, .own (nC, v1) []), (nA, .own (nA, v1) [])], [], []⟩,
+          ⟨[(nA, v3)], [(nA, .own (nA, v3) [])], [], []⟩, ?_, ?_, ?_, ?_⟩ <;> decide +kernel
+
+end EupsModel.C04
